@@ -179,7 +179,7 @@ func Parse(block []rune, pos int) (pt ParsedTokens, syntaxHighlighted string) {
 				syntaxHighlighted += string(block[i])
 			case pt.Escaped:
 				escaped()
-			case pt.ExpectParam:
+			case pt.ExpectParam && !pt.ExpectFunc:
 				expectParam()
 				fallthrough
 			default:
